@@ -429,6 +429,16 @@ def check_pseudo(ctx, eng):
                'resp-in-req': False, 'connect': False}
     RESP = 'hdr_validation_flags.is_response_header'
     TRAIL = 'hdr_validation_flags.is_trailer'
+
+    def unconditional(cs, block_type):
+        # a mandatory field is demanded of every block of its type: besides
+        # the block-type tests only the outcome of the other mandatory-field
+        # tests may have been assumed on the way
+        def flag_test(c):
+            c = c[4:] if c.startswith('not ') else c
+            return c in (RESP, TRAIL, 'pseudo_headers')
+        return all(c in block_type or flag_test(c) or
+                   c.endswith('in pseudo_headers)') for c in cs)
     for p in paths:
         conds = [cm.show0(e.cond) for e in p.events if e.kind == 'assume']
         r = cm.explicit_raise(p)
@@ -453,10 +463,12 @@ def check_pseudo(ctx, eng):
                 miss = {'not (%r in pseudo_headers)' % nm,
                         'not (%r in pseudo_headers)' % nm.encode()}
                 if miss == set(conds[-2:]):
-                    if k == 'status' and RESP in conds:
+                    if k == 'status' and RESP in conds and \
+                            unconditional(conds[:-2], {RESP}):
                         clauses[k] = True
                     if k != 'status' and 'not ' + RESP in conds and \
-                            'not ' + TRAIL in conds:
+                            'not ' + TRAIL in conds and unconditional(
+                                conds[:-2], {'not ' + RESP, 'not ' + TRAIL}):
                         clauses[k] = True
         elif via is not None and cm.is_call_to(via, '_assert_header_in_set'):
             a = [cm.show0(x) for x in via.args]
@@ -464,10 +476,12 @@ def check_pseudo(ctx, eng):
                           ('method', ':method'), ('scheme', ':scheme')):
                 if a[:2] == [repr(nm), repr(nm.encode())] and \
                         a[2] == 'pseudo_headers':
-                    if k == 'status' and RESP in conds:
+                    if k == 'status' and RESP in conds and \
+                            unconditional(conds, {RESP}):
                         clauses[k] = True
                     if k != 'status' and 'not ' + RESP in conds and \
-                            'not ' + TRAIL in conds:
+                            'not ' + TRAIL in conds and unconditional(
+                                conds, {'not ' + RESP, 'not ' + TRAIL}):
                         clauses[k] = True
     ctx.ob('ORD.clause', f2.qual, 'pseudo-headers fit the block type',
            all(clauses.values()), 'trailers: none; responses: :status and no '
